@@ -26,7 +26,8 @@ CLAIMED = {
             'static analysis: path-sensitive MUST-CALL / typestate walk over the structured mini-AST (LibTooling facts)', ''),
     'C21': ('other',
             'Static: container-protocol rules on the scoped registries (every created key can be erased when readers test presence), insertion '
-            'registers all maps and the scope log on every successful path, push/popScope guarded by the same global-declarations predicate, '
+            'registers all maps and the scope log on every successful path and writes an undo entry only for a change that was made (the recording method is found by what it '
+            'does, not by name), push/popScope guarded by the same global-declarations predicate, '
             'scope logs paired with the assertion stack, single writer of the maps. Decides these clauses, not which container each printer reads.',
             'static analysis: container-protocol and pairing rules over class facts + path-sensitive MUST-CALL walk', ''),
     'C19': ('other',
@@ -99,7 +100,9 @@ CLAIMED = {
             'Static absence-of-source rules over all built units: no scalar member read while never written anywhere in the program (whole-program write set), no iteration over '
             'pointer-keyed containers (typedefs expanded), no pointer-to-integer conversion or pointer printing, clock/memory/pid values reach control flow only in the '
             'listed explicit time-budget functions (interprocedural taint), libc randomness only after a constant/configured seed and per-instance PRNG seeds, pipe framing '
-            'independent of read() chunking (shared with C20); thorough tier adds clang\'s definite-uninitialised-use dataflow over every unit. Necessary conditions of '
+            'independent of read() chunking (shared with C20); every printf-style call (libc family and the two home-made format walkers of the interpreter, whose conversion '
+            'table is read from their own va_arg switch) passes one argument of the matching promoted type per conversion, so no pointer bits or indeterminate bytes reach the '
+            'output; thorough tier adds clang\'s definite-uninitialised-use dataflow over every unit. Necessary conditions of '
             'reproducibility; other undefined behaviour is not decided.',
             'static analysis: whole-program def/use of members, type-based container rule, interprocedural taint from clock sources to branch conditions, seed provenance rule', ''),
     'C01': ('other',
@@ -206,8 +209,11 @@ CLAIMED = {
     'C27': ('other',
             'Static, narrow: the UB-obligation engine restricted to SafeInt / Converter<SafeInt> and the rounding helpers of FastRational (fastrat_fdiv_q, divexact, '
             'operator%, ceil, floor): every signed add/sub/negate/divide and narrowing is discharged by LLVM -O2 or justified with guards that must be present; the word '
-            'paths exclude the INT_MIN operand pair whose quotient does not fit. The rounding identities themselves need a solver and are not decided.',
-            'static analysis: compiler-discharged sanitizer obligations read from LLVM IR + frozen justified residual table', 'clang 14.0.6 -O2 as the discharging analysis'),
+            'paths exclude the INT_MIN operand pair whose quotient does not fit. Plus the direction of every rounding step: constant folding of div / mod (mkIntDiv, mkMod, helpers '
+            'inlined) and the tightening of bounds on integer variables (getBoundsValueForIntVar) are evaluated over a finite rounding-direction domain (exact quotient q, '
+            'floor(q)+k; q an integer or not) for every divisor sign / strictness case and must give floor / ceil as SMT-LIB and integer semantics prescribe. The div/mod '
+            'elimination axioms and gcd normalisation are not decided.',
+            'static analysis: compiler-discharged sanitizer obligations read from LLVM IR + frozen justified residual table + abstract evaluation over a rounding-direction domain', 'clang 14.0.6 -O2 as the discharging analysis'),
     'C05': ('other',
             'Static: where the code forks on an option the forks are exhaustive (createTheory over Logic_t) and sibling branches agree on the mandatory steps (per-partition vs '
             'whole-frame preprocessing); code that only some configurations execute keeps the shared invariants - every engine precedes its model-found exits by a complete '
